@@ -6,13 +6,15 @@
 (* that are not plain errors are emitted (everything else is an error).    *)
 (***************************************************************************)
 EXTENDS Hostile, Json
-CONSTANT MaxLen
+CONSTANTS MaxLen,
+          Dedup        \* FALSE: every target type over the general alphabet; TRUE: the string-table targets over DedupAlphabet
 VARIABLE T
-Init == T \in FuzzTypes
+Init == T \in IF Dedup THEN DedupTargets ELSE FuzzTypes
 Next == UNCHANGED T
 Spec == Init /\ [][Next]_T
 
-Inputs == StringsUpTo(MaxLen)
+Alpha == IF Dedup THEN DedupAlphabet ELSE Alphabet
+Inputs == StringsOver(Alpha, MaxLen)
 \* the reference decoder is total: one of the four outcome classes on every input,
 \* and an accepted value never claims more bytes than there are
 DecTotal ==
@@ -25,5 +27,5 @@ AcceptedIsStable ==
     o[1] = "ok" => LET o2 == RefOutcome(T, SubSeq(b, 1, o[3])) IN o2[1] = "ok" /\ o2[2] = o[2] /\ o2[3] = o[3]
 
 NonErr == {<<b, RefOutcome(T, b)>> : b \in {x \in Inputs : RefOutcome(T, x)[1] # "err"}}
-EmitCases == PrintT(<<"REPLAY", ToJson([ty |-> T, alphabet |-> Alphabet, maxlen |-> MaxLen, nonerr |-> NonErr])>>)
+EmitCases == PrintT(<<"REPLAY", ToJson([ty |-> T, alphabet |-> Alpha, maxlen |-> MaxLen, nonerr |-> NonErr])>>)
 =============================================================================
